@@ -37,6 +37,7 @@ type asmRef struct {
 type asmModel struct {
 	base    uint32
 	baseSet bool
+	baseAt  int // number of items issued before SetBase: the base directive is owed to the first line after them
 	pc      uint32
 	bytes   []byte
 	items   []asmItem
@@ -62,7 +63,7 @@ func (m *asmModel) clone() *asmModel {
 	return &c
 }
 
-func (m *asmModel) setBase(a uint32) { m.base, m.pc, m.baseSet = a, a, true }
+func (m *asmModel) setBase(a uint32) { m.base, m.pc, m.baseSet, m.baseAt = a, a, true, len(m.items) }
 func (m *asmModel) m16() bool        { return m.p&0x20 == 0 }
 func (m *asmModel) x16() bool        { return m.p&0x10 == 0 }
 func (m *asmModel) fits(n int) bool  { return m.cap < 0 || len(m.bytes)+n <= m.cap }
@@ -234,12 +235,23 @@ type asmVariant struct {
 	Listing bool   `json:"listing"`
 	BaseSet bool   `json:"base_set"`
 	Base    uint32 `json:"base"`
+	// Pre: what the caller did BEFORE SetBase: 0 nothing, 1 Comment("pre"), 2 Label("zz_pre").
+	// (SetBase itself is only meaningful before the first emitted byte: listings locate a line's
+	// bytes at address-base with the one base the emitter remembers.)
+	Pre int `json:"pre,omitempty"`
+}
+
+const asmPreLabel = "zz_pre"
+
+// asmVariantsPre: annotations issued before SetBase (listing on).
+func asmVariantsPre() []asmVariant {
+	return []asmVariant{{true, true, 0x008000, 1}, {true, true, 0x008000, 2}, {true, true, 0x7E2000, 1}}
 }
 
 func asmVariants() []asmVariant {
 	var v []asmVariant
 	for _, l := range []bool{true, false} {
-		v = append(v, asmVariant{l, false, 0}, asmVariant{l, true, 0}, asmVariant{l, true, 0x008000}, asmVariant{l, true, 0x7E2000}, asmVariant{l, true, 0xFF8000})
+		v = append(v, asmVariant{l, false, 0, 0}, asmVariant{l, true, 0, 0}, asmVariant{l, true, 0x008000, 0}, asmVariant{l, true, 0x7E2000, 0}, asmVariant{l, true, 0xFF8000, 0})
 	}
 	return v
 }
@@ -249,6 +261,7 @@ type asmHistory struct {
 	Ops      []string   `json:"ops"`
 	Capacity int        `json:"capacity"`        // buffer size; -1 = nil target
 	Split    int        `json:"split,omitempty"` // C16
+	Window   bool       `json:"window,omitempty"` // C19: the target is a window of a larger array (len < cap)
 }
 
 func opsByName(names []string) ([]asmOp, error) {
@@ -275,14 +288,63 @@ func newRealEmitter(v asmVariant, capacity int) *asm.Emitter {
 		buf = make([]byte, capacity)
 	}
 	e := asm.NewEmitter(buf, v.Listing)
+	asmConstruct(e, v)
+	return e
+}
+
+// asmConstruct performs the constructor variant's calls on a fresh emitter.
+func asmConstruct(e *asm.Emitter, v asmVariant) {
+	switch v.Pre {
+	case 1:
+		e.Comment("pre")
+	case 2:
+		e.Label(asmPreLabel)
+	}
 	if v.BaseSet {
 		e.SetBase(v.Base)
 	}
-	return e
+}
+
+// asmGuard: the target buffer handed to a real emitter as a window backing[8:8+capacity] of a
+// larger array (so len(target) < cap(target)) whose bytes outside the window are canaries.
+type asmGuard struct {
+	backing []byte
+	n       int
+}
+
+const asmCanary = 0xC5
+
+func newRealEmitterWindow(v asmVariant, capacity int) (*asm.Emitter, *asmGuard) {
+	g := &asmGuard{backing: make([]byte, capacity+24), n: capacity}
+	for i := range g.backing {
+		g.backing[i] = asmCanary
+	}
+	e := asm.NewEmitter(g.backing[8:8+capacity], v.Listing)
+	asmConstruct(e, v)
+	return e, g
+}
+
+// intact reports the first byte outside the window that was modified.
+func (g *asmGuard) intact() string {
+	if g == nil {
+		return ""
+	}
+	for i, b := range g.backing {
+		if (i < 8 || i >= 8+g.n) && b != asmCanary {
+			return fmt.Sprintf("byte %+d relative to the %d-byte target buffer was overwritten with $%02x (the buffer is a window of a larger array)", i-8, g.n, b)
+		}
+	}
+	return ""
 }
 
 func newModelFor(v asmVariant, capacity int) *asmModel {
 	m := newAsmModel(capacity)
+	switch v.Pre {
+	case 1:
+		m.comment("pre")
+	case 2:
+		m.label(asmPreLabel)
+	}
 	if v.BaseSet {
 		m.setBase(v.Base)
 	}
